@@ -14,7 +14,7 @@ from .expr import ExprMixin
 from .stmt import StmtMixin
 from .call import CallMixin, Frame, LOG_METHODS
 from .builtins import BuiltinMixin
-from .program import Program, BindError
+from .program import Program, BindError, const_eval
 from . import lists as L
 
 MUTATORS = {'append', 'pop', 'insert', 'remove', 'clear', 'extend', 'add', 'discard', 'update', 'setdefault', 'sort'}
@@ -349,6 +349,8 @@ class Engine(CoreMixin, ExprMixin, StmtMixin, CallMixin, BuiltinMixin):
                     self._tgt(n.target, locs, fields)
                 elif isinstance(n, ast.ExceptHandler) and n.name:
                     locs.add(n.name)
+                elif isinstance(n, ast.Yield):
+                    locs.add('_yielded')
                 elif isinstance(n, ast.Delete):
                     for t in n.targets:
                         self._tgt(t, locs, fields)
@@ -605,11 +607,32 @@ class Engine(CoreMixin, ExprMixin, StmtMixin, CallMixin, BuiltinMixin):
                 ts = 'Ref[%s]' % sc.name
             if ts is None:
                 raise BindError('contract %s gives no type for parameter %s' % (fs.key, n))
-            if ts == 'AnyPkt' or ts.startswith('Ext[') or ts.startswith('Class['):
+            if ts == 'AnyPkt' or ts.startswith('Ext[') or ts.startswith('Class[') or ts.startswith('PyDict{'):
                 out[n] = ts
             else:
                 out[n] = parse_type(ts)
         return out
+
+    def symbolic_pydict(self, name, ts):
+        '''Parameter type PyDict{2: [Int, Int, Int, Bytes], 8: Int}: a dict with exactly these integer keys whose
+        values are arbitrary values of the stated types (lists: fixed length, as written).'''
+        node = ast.parse(ts[6:], mode='eval').body
+        if not isinstance(node, ast.Dict):
+            raise BindError('malformed %s' % ts)
+
+        def mk(tn, path):
+            if isinstance(tn, ast.List):
+                return Py('pylist', tuple(mk(e, '%s_%d' % (path, i)) for i, e in enumerate(tn.elts)))
+            t = parse_type(ast.unparse(tn))
+            v = V(t, z3.Const('arg_%s_%s' % (name, path), t.sort()))
+            self.assume_wf(v)
+            self.model_watch_extra.append(('%s[%s]' % (name, path.replace('_', '][')), v))
+            return v
+        items = []
+        for k, vn in zip(node.keys, node.values):
+            kc = const_eval(k)
+            items.append((mk_int(kc), mk(vn, str(kc))))
+        return Py('pydict', tuple(items))
 
     # ---------------------------------------------------------------- verify
     def verify(self, fs, case_idx=0):
@@ -708,10 +731,14 @@ class Engine(CoreMixin, ExprMixin, StmtMixin, CallMixin, BuiltinMixin):
         self.frame = fr
         ptypes = self.param_types(fs, fdef, case)
         watch = []
+        self.model_watch_extra = watch
         for n, t in ptypes.items():
             if isinstance(t, str):
                 if t.startswith('Ext['):
                     fr.locals[n] = Py('ext', t[4:-1])
+                    continue
+                if t.startswith('PyDict{'):
+                    fr.locals[n] = self.symbolic_pydict(n, t)
                     continue
                 raise BindError('parameter %s of %s needs a concrete packet type in each case' % (n, fs.key))
             if n == 'self':
@@ -763,12 +790,20 @@ class Engine(CoreMixin, ExprMixin, StmtMixin, CallMixin, BuiltinMixin):
         self.old_locals = dict(fr.locals)
         self.run_ghost(fs.ghost_entry)
         outcome = None
+        gen_t = fs.d.get('generator')
+        if gen_t:
+            from .types import TList as _TL
+            from . import lists as _L
+            lt = _TL(parse_type(gen_t))
+            fr.locals['_yielded'] = V(lt, _L.l_empty(lt))
         try:
             try:
                 self.exec_block(fdef.body)
                 outcome = ('return', NONE)
             except ReturnEx as r:
                 outcome = ('return', r.value)
+            if gen_t:
+                outcome = ('return', fr.locals['_yielded'])
         except PyExc as pe:
             outcome = ('raise', pe.exc)
         self.frame = fr
